@@ -1293,8 +1293,9 @@ theorem diffRest_idx_ge (o : Opts) : ∀ (n : Nat) (a b : List Json), a.length +
               · rcases List.mem_append.1 hm with hm | hm
                 · rcases List.mem_append.1 hm with hm | hm
                   · exact acc hm
-                  · obtain ⟨t, ht⟩ := Real.diff_paths_extend_general o false x y _ h hm
-                    exact ⟨k, t, by rw [← ht]; rfl, hsk⟩
+                  · obtain ⟨h0, hm0, hp0, _⟩ := mem_subAfter' hm
+                    obtain ⟨t, ht⟩ := Real.diff_paths_extend_general o false x y _ h0 hm0
+                    exact ⟨k, t, by rw [hp0, ← ht]; rfl, hsk⟩
                 · obtain ⟨i, q, hp, hi⟩ := ih (a'.length + b'.length) (by omega) a' b' rfl (k + 1)
                     (k + 1) y c [] [] (Nat.le_refl _) h hm
                   exact ⟨i, q, hp, by omega⟩
@@ -1906,6 +1907,8 @@ theorem noRed_strict (L : FloatLaws) (o : Opts) (ho : dispatchTag o = .list) {S 
       pre rfl hk hp gR ga gb sa sb hopt
     rw [diffRest_cons] at hd hfull
     simp only [hA, hB, hs, Bool.false_and, Bool.false_eq_true, if_false, if_true] at hd hfull
+    -- `x` is a plain `jsonArray` or an object (`rawDoc`): `subAfter` does not touch the sub-diff
+    rw [Real.subAfter_diffNode_of_not_mixed o hs (mixedPair_of_rawDoc_left y hraw.1)] at hd hfull
     rw [diffNode_at o ho x y hlx.1 hly.1] at hd hfull
     simp only [hemp, Bool.false_eq_true, if_false] at hd hfull
     rw [List.append_assoc (accHunk [] pre.length prev R A x)] at hd hfull
@@ -2161,8 +2164,24 @@ theorem diff_strictOK (o : Opts) (ho : dispatchTag o = .list) :
             exact hl.2.1
         · exact hl.1
       · rw [diffNode_at o ho x y hl.1 hl'.1] at hm
-        obtain ⟨h0, hh0, rfl⟩ := List.mem_map.1 hm
-        exact (ihN h0 hh0).shift (by simp [strictPath])
+        -- through `subAfter`: only the after-context may have become the next element of the source
+        obtain ⟨h1, hm1, e1, e2, e3, e4, e5, ha⟩ := mem_subAfter' hm
+        obtain ⟨h0, hh0, rfl⟩ := List.mem_map.1 hm1
+        have g := (ihN h0 hh0).shift (e := PathElem.idx (k : Int)) (by simp [strictPath])
+        have hnx : (a'.headD Json.void).listDoc = true := by
+          cases a' with
+          | nil => rfl
+          | cons z _ =>
+            simp only [listDocList, Bool.and_eq_true] at hl
+            exact hl.2.1
+        refine ⟨by rw [e5]; exact g.1, by rw [e1]; exact g.2.1, ?_⟩
+        have g3 := g.2.2
+        simp only [hunkListDoc, Bool.and_eq_true] at g3 ⊢
+        rw [e2, e3, e4]
+        rcases ha with ha | ha
+        · rw [ha]; exact g3
+        · rw [ha]
+          exact ⟨g3.1, by simp only [listDocList, Bool.and_true]; exact hnx⟩
     · exact ihR hl'.1 rfl rfl h hm
   · intro k s prev c R A x a' y b' hl hl' hA hB hs ih hp hR hA' h hm
     simp only [listDocList, Bool.and_eq_true] at hl hl'
